@@ -165,6 +165,23 @@ def _work(item):
                 res['problems'].append({'kind': 'compare-not-empty', 'case': label,
                                         'diff': str(diff)[:300]})
             if label == 'plain':
+                # compare() without a solution means the model's own values, whatever was
+                # calculated on it last (other inputs, a restricted set of outputs)
+                try:
+                    inp0 = inputs_of(g, ovset)
+                    if inp0:
+                        m.calculate(inputs=inp0)
+                    forms0 = [i for i in g.order if g.cells[i]['k'] == 'f']
+                    if forms0:
+                        m.calculate(outputs=[G.node_name(forms0[0])])
+                    diff0 = m.compare(*[os.path.join(outd, fn) for fn in sorted(os.listdir(outd))])
+                except BaseException as ex:  # noqa
+                    if isinstance(ex, (KeyboardInterrupt, SystemExit)):
+                        raise
+                    diff0 = 'raises %s: %s' % (type(ex).__name__, str(ex)[:150])
+                if diff0:
+                    res['problems'].append({'kind': 'compare-not-empty', 'case': 'own-values-after-other-use',
+                                            'diff': str(diff0)[:300]})
                 # another solution written over the same files and compared again: what was
                 # read from those paths before must not show through
                 inp2 = inputs_of(g, ovset)
